@@ -5,6 +5,7 @@ package main
 import (
 	"encoding/json"
 	"fmt"
+	"sort"
 
 	"github.com/ccbrown/api-fu/graphql"
 	"github.com/ccbrown/api-fu/graphql/schema"
@@ -129,4 +130,49 @@ func keepsDefaults() bool {
 		return false
 	}
 	return def.Query.Fields["d"].Arguments["r"].DefaultValue != nil
+}
+
+// reorderIntro returns the introspection data with every list of named members (types, fields,
+// args, inputFields, enumValues, directives, …) in ascending / descending name order. The order in
+// which a server lists them is arbitrary (this library: Go map iteration order), so a schema must
+// rebuild the same way from every order.
+func reorderIntro(data []byte, descending bool) []byte {
+	var x interface{}
+	if json.Unmarshal(data, &x) != nil {
+		return data
+	}
+	var walk func(v interface{})
+	walk = func(v interface{}) {
+		switch v := v.(type) {
+		case map[string]interface{}:
+			for _, e := range v {
+				walk(e)
+			}
+		case []interface{}:
+			named := len(v) > 0
+			for _, e := range v {
+				walk(e)
+				if m, ok := e.(map[string]interface{}); !ok {
+					named = false
+				} else if _, ok := m["name"].(string); !ok {
+					named = false
+				}
+			}
+			if named {
+				sort.SliceStable(v, func(i, j int) bool {
+					a, b := v[i].(map[string]interface{})["name"].(string), v[j].(map[string]interface{})["name"].(string)
+					if descending {
+						return a > b
+					}
+					return a < b
+				})
+			}
+		}
+	}
+	walk(x)
+	out, err := json.Marshal(x)
+	if err != nil {
+		return data
+	}
+	return out
 }
